@@ -477,6 +477,6 @@ def resolve_higher_order(model, cls):
     return changed
 
 
-def flatten_function(module_funcs, fn, depth=3, stop=()):
+def flatten_function(module_funcs, fn, depth=3, stop=(), impure=False):
     """flatten() for a module-level function: private module-level helpers (`_h(...)`) are inlined"""
-    return flatten({'func:' + k: v for k, v in module_funcs.items()}, fn, depth, stop)
+    return flatten({'func:' + k: v for k, v in module_funcs.items()}, fn, depth, stop, impure=impure)
